@@ -23,3 +23,18 @@ add('M18b', [('SRC/memory.c', "void *superlu_malloc(size_t size)\n{\n    void *b
     ['C09'], note='allocation counter at file scope')
 add('M18c', [('SRC/sp_coletree.c', "static \nint *mxCallocInt(int n)\n{\n    register int i;\n    int *buf;\n", "static int *mx_cache; static\nint *mxCallocInt(int n)\n{\n    register int i;\n    int *buf;\n    if (mx_cache) { int *t = mx_cache; mx_cache = 0; return t; }")],
     ['C09'], note='cached buffer in sp_coletree')
+
+# ---------------------------------------------------------------- C18
+add('M34', [('SRC/dgsrfs.c', "        *info = -10;", "        *info = -9;")], ['C18'], note='dgsrfs reports B with the position of C')
+add('M35', [('SRC/cgssvx.c', "A->Dtype != SLU_C || A->Mtype != SLU_GE", "A->Dtype != SLU_Z || A->Mtype != SLU_GE")], ['C18'], note='wrong precision tag')
+add('M36', [('SRC/dgstrs.c', "    nrhs = B->ncol;\n    if ( trans != NOTRANS", "    nrhs = B->ncol;\n    work = doubleCalloc((size_t) L->nrow * (size_t) nrhs);\n    if ( trans != NOTRANS")],
+    ['C18'], note='allocation before the screening: leaked on the error return')
+add('M36b', [('SRC/zgssv.c', "A->Dtype != SLU_Z || A->Mtype != SLU_GE )", "A->Dtype != SLU_Z )")], ['C18'], note='Mtype check dropped')
+add('M36c', [('SRC/sgssvx.c', "if ( lwork < -1 ) *info = -12;", "if ( lwork < 0 ) *info = -12;")], ['C18'], note='rejects the documented lwork = -1 query')
+add("M36d", [("SRC/dgsisx.c", "if ( X->ncol < 0 ) *info = -14;", "if ( X->ncol < 0 ) *info = -13;")], ['C18'], note='X error reported as B')
+add('M36e', [('SRC/zsp_blas2.c', "    else if ( L->nrow != L->ncol || L->nrow < 0 ) *info = -4;\n    else if ( U->nrow != U->ncol || U->nrow < 0 ) *info = -5;",
+              "    else if ( U->nrow != U->ncol || U->nrow < 0 ) *info = -5;\n    else if ( L->nrow != L->ncol || L->nrow < 0 ) *info = -4;")], ['C18'],
+    note='order of checks swapped: later argument reported first')
+add('B1', [('SRC/dgssvx.c', "rowequ", "row_scaled", 'all'), ('SRC/sgssvx.c', "rowequ", "row_scaled", 'all')], [], ['C18', 'C05'], note='rename a local in dgssvx/sgssvx')
+add('B4', [('SRC/dgsrfs.c', "    notran = (trans == NOTRANS);\n    if ( !notran", "    notran = (trans == NOTRANS);\n    nz = A->nrow;\n    if ( !notran"),
+           ('SRC/dgsrfs.c', "    else if ( A->nrow != A->ncol || A->nrow < 0 ||", "    else if ( nz != A->ncol || nz < 0 ||")], [], ['C18'], note='hoist A->nrow into a local (d only: sibling rule will see it)')
